@@ -606,6 +606,45 @@ Proof.
   cbn [live_tail spec_tail]. rewrite (live_exact sel b merge Hwf Hts Hok), IH. reflexivity.
 Qed.
 
+Lemma live_tail_app : forall f merge a b,
+  live_tail f merge (a ++ b) = live_tail f merge a ++ live_tail f merge b.
+Proof.
+  intros f merge a b. induction a as [| x a IH]; [reflexivity |].
+  cbn [app live_tail]. destruct (apply f x merge); cbn [app]; rewrite IH; reflexivity.
+Qed.
+
+Lemma xrun_inv : forall f merge evs st,
+  snd (fold_left (xstep f merge) evs st) ++ live_tail f merge (fst (fold_left (xstep f merge) evs st)) =
+  snd st ++ live_tail f merge (fst st ++ xflushes evs).
+Proof.
+  intros f merge evs. induction evs as [| e evs IH]; intros [q d].
+  - cbn [fold_left xflushes flat_map fst snd]. rewrite app_nil_r. reflexivity.
+  - cbn [fold_left]. rewrite IH. destruct e as [b |].
+    + cbn [xstep fst snd xflushes flat_map]. rewrite <- app_assoc. reflexivity.
+    + cbn [xstep fst snd xflushes flat_map app]. destruct q as [| b q]; [reflexivity |].
+      cbn [app live_tail]. destruct (apply f b merge) as [fb |]; cbn [fst snd].
+      * rewrite <- app_assoc. reflexivity.
+      * reflexivity.
+Qed.
+
+(* Whatever the interleaving of flushes and forwarding-task iterations after the
+   streaming call has returned (in particular: all flushes before the task's
+   first iteration, i.e. while it is still handing over the historical result),
+   the consumer ends up with the live tail of ALL batches flushed since the
+   subscription point, each once, in flush order. *)
+Theorem executor_delivers_all : forall f merge evs,
+  xdelivered f merge evs = live_tail f merge (xflushes evs).
+Proof.
+  intros f merge evs. unfold xdelivered, xrun. rewrite xrun_inv. reflexivity.
+Qed.
+
+Theorem executor_exact : forall sel merge evs,
+  Forall (fun b => wf_batch b = true /\ ts_col_ok b = true /\ clause_ok sel b) (xflushes evs) ->
+  xdelivered (from_sql sel) merge evs = spec_tail sel merge (xflushes evs).
+Proof.
+  intros sel merge evs H. rewrite executor_delivers_all. apply live_tail_exact. exact H.
+Qed.
+
 (* ---- what filter_batch delivers: the k-th delivered row is the row at the
    k-th kept index; kept indices are the positions with mask = true, ascending *)
 Definition kept_indices (mask : list bool) : list nat := filter_list mask (seq 0 (length mask)).
